@@ -108,7 +108,10 @@ impl BaseElement {
         let z = (s_hi << 32) - s_hi;
         let (res, over) = s_lo.overflowing_add(z);
 
-        BaseElement::from_mont(res.wrapping_add(0u32.wrapping_sub(over as u32) as u64))
+        // the sum is in [0, 2M): bring it into the canonical range [0, M)
+        let res = res.wrapping_add(0u32.wrapping_sub(over as u32) as u64);
+        let (reduced, under) = res.overflowing_sub(M);
+        BaseElement::from_mont(if under { res } else { reduced })
     }
 }
 
@@ -129,9 +132,7 @@ impl FieldElement for BaseElement {
 
     #[inline]
     fn double(self) -> Self {
-        let ret = (self.0 as u128) << 1;
-        let (result, over) = (ret as u64, (ret >> 64) as u64);
-        Self(result.wrapping_sub(M * over))
+        self + self
     }
 
     #[inline]
